@@ -178,7 +178,7 @@ META = {
          'panics, publish failures and a message settled after Router.Close. The message-transform subscriber decorator is also modelled at the grain of its goroutines '
          '(SubDecorator.tla: Subscribe / forwarding goroutine / Close against an inner subscriber, consumers that stop reading and cancelled contexts; TLC checks that a message is '
          'given up only after the inner Close or on a cancelled subscription, order, WaitGroup discipline, Close completeness and, under fairness, that Close returns and a '
-         'cancelled subscription gets its channel closed, also for two overlapping Close calls; two legacy designs and three seeded designs are rejected) and randomly scripted concurrent runs of the real decorator (one or two overlapping Close calls) are '
+         'cancelled subscription gets its channel closed, also for two overlapping Close calls; the WaitGroup protocol on its own (SubDecoratorWg.tla) is shown by Apalache induction for every set of up to five subscriptions and three Close calls; two legacy designs and three seeded designs are rejected) and randomly scripted concurrent runs of the real decorator (one or two overlapping Close calls) are '
          'validated as INTERNAL traces (hook events + harness events) against that model; a context delay must be stamped exactly as made (also when published a second later) and '
          'messages handed out while the inner Close is in progress still pass through; in the other direction TLC-simulated behaviours of SubDecorator.tla are replayed as gate '
          'schedules against the real decorator (every hook point gated) and the resulting internal traces validated',
